@@ -645,6 +645,7 @@ def check_rates(case):
     allp = all_entries(lf, "P")
     stationary = NAMED[mid]["weight"] != "none"
     expected_subs = 0.0
+    late = None
     for bi, b in enumerate(bnames):
         try:
             Q = arr(lf.get_rate_matrix_for_edge("a", bin=b))
@@ -663,9 +664,28 @@ def check_rates(case):
             if not key or abs(allp[key[0]] - P).max() > 0:
                 raise Broken("P-get_all_psubs-differs", f"bin {b} edge {e}: keys {sorted(allp)}")
             p_clauses(P, S.spec_expm(Q, L * rates[bi]), L, w, stationary, stationary)
+            # the un-calibrated matrix of an edge is the generator of that edge's P: Q * length * rate of the bin
+            try:
+                U = arr(lf.get_rate_matrix_for_edge(e, calibrated=False, bin=b))
+            except Exception:
+                U = arr(lf.get_rate_matrix_for_edge(e, calibrated=False))
+            if late is None and abs(U - Q * L * rates[bi]).max() > TOLQ * max(1.0, abs(Q).max() * L * rates[bi]):
+                late = Broken("Q-uncalibrated-for-edge-is-not-the-generator-of-P",
+                              f"bin {b} edge {e}: get_rate_matrix_for_edge(calibrated=False) differs from Q*length*rate "
+                              f"(length {L}, bin rate {rates[bi]!r}) by {abs(U - Q * L * rates[bi]).max():.3e}")
         expected_subs += bp[bi] * rates[bi] * L * -(w * numpy.diag(Q)).sum()
     if abs(expected_subs - L) > 1e-9 * max(1.0, L):
         raise Broken("length-is-not-expected-substitutions", f"sum_b bprob_b rate_b len (-sum pi Q_ii) = {expected_subs!r}, length {L}")
+    allu = {tuple(str(x) for x in k): arr(v) for k, v in lf.get_all_rate_matrices(calibrated=False).items()}
+    for k, U in allu.items():
+        bi = [i for i, b in enumerate(bnames) if b in k]
+        r = rates[bi[0]] if bi else 1.0
+        if bi or not has_rate or bins == 1:
+            Qb = arr(lf.get_rate_matrix_for_edge("a", bin=bnames[bi[0]])) if bi else Q
+            if abs(U - Qb * L * r).max() > TOLQ * max(1.0, abs(Qb).max() * L * r):
+                raise Broken("Q-get_all_rate_matrices-uncalibrated-is-not-the-generator-of-P", f"key {k}")
+    if late is not None:
+        raise late
     return True
 
 
